@@ -1138,7 +1138,8 @@ public:
         *buffer = '\0';
         return buffer - start;
       }
-      ++buffer;
+      if(buffer - seqStart < 62) // the callers provide 64 bytes: drop excess attribute characters
+        ++buffer;
     }
   }
 
@@ -1147,12 +1148,15 @@ public:
     for(char* start = buffer, ch;;)
     {
       VERIFY(read(STDIN_FILENO, &ch, 1) == 1);
-      *(buffer++) = ch;
+      *buffer = ch;
       if(seqStart[1] != '[' || !isSeqAttributeChar(ch))
       {
+        ++buffer;
         *buffer = '\0';
         return buffer - start;
       }
+      if(buffer - seqStart < 62) // the callers provide 64 bytes: drop excess attribute characters
+        ++buffer;
     }
   }
 #endif
